@@ -299,9 +299,10 @@ func gRandCfg(r *vRand) gGenCfg {
 
 // gPinnedRule: a srflx rewrite rule pinned to the local wildcard address with 1..3 external addresses:
 // IPv4 and IPv6 externals mixed, and a location-tracked (IPv6 link-local) one in first / middle / last
-// position (the socket selected for it must be closed, the others become candidates).
+// position (the socket selected for it must be closed, the others become candidates); likewise site-local and
+// IPv4-compatible IPv6 externals, which must not be published either.
 func gPinnedRule(r *vRand) string {
-	pool := []string{"x4.80", "x4.81", "x6.80", "k6.1", "k6.2", "x4.82"}
+	pool := []string{"x4.80", "x4.81", "x6.80", "k6.1", "k6.2", "x4.82", "s6.1", "c6.1", "s6.2", "c6.2"}
 	n := 1 + r.intn(3)
 	var exts []string
 	used := map[string]bool{}
@@ -313,7 +314,7 @@ func gPinnedRule(r *vRand) string {
 		}
 	}
 	if r.chance(1, 2) { // make sure a filtered address is there, at a random position
-		exts[r.intn(len(exts))] = "k6.1"
+		exts[r.intn(len(exts))] = []string{"k6.1", "s6.1", "c6.1"}[r.intn(3)]
 		seen := map[string]bool{}
 		var out []string
 		for _, e := range exts {
@@ -478,7 +479,9 @@ func gGen(o *vOut, r *vRand, thorough bool, args []string, emit func(op string) 
 	// 1c. srflx rules pinned to the wildcard address: the location-tracked external first / middle / last /
 	// alone, mixed families, with Restart and Close in between
 	for _, exts := range []string{"k6.1", "k6.1+x4.80", "x4.80+k6.1", "x4.80+k6.1+x4.81", "k6.1+k6.2+x4.80", "x4.80+x4.81+k6.1",
-		"k6.1+x6.80", "x6.80+x4.80", "x4.80+x6.80+k6.1", "x4.80", "k6.1+k6.2"} {
+		"k6.1+x6.80", "x6.80+x4.80", "x4.80+x6.80+k6.1", "x4.80", "k6.1+k6.2",
+		// site-local / IPv4-compatible externals (RFC 8445 5.1.1.1 exclusions): first / middle / last / alone
+		"s6.1", "c6.1", "s6.1+x4.80", "x4.80+c6.1", "x4.80+s6.1+x4.81", "c6.1+s6.1+x6.80", "x6.80+x4.80+c6.1", "s6.1+k6.1+c6.1"} {
 		for _, mode := range []string{"pin", "pina"} {
 			for _, nt := range []string{"", "u4+u6", "u4"} {
 				c := gGenCfg{ct: "s", nt: nt, sr: mode + ":" + exts, ifaces: gIfaceTables[1]}
